@@ -44,7 +44,7 @@ impl StateMachine<'_> {
             | HunkMinus(Combined(merge_parents, InMergeConflict::No), _)
             | HunkZero(Combined(merge_parents, InMergeConflict::No), _)
             | HunkPlus(Combined(merge_parents, InMergeConflict::No), _) => {
-                handled_line = self.enter_merge_conflict(&merge_parents)
+                handled_line = self.enter_merge_conflict(&merge_parents)?
             }
             MergeConflict(merge_parents, Ours) => {
                 handled_line = self.enter_ancestral(&merge_parents)
@@ -76,18 +76,23 @@ impl StateMachine<'_> {
         Ok(handled_line)
     }
 
-    fn enter_merge_conflict(&mut self, merge_parents: &MergeParents) -> bool {
+    fn enter_merge_conflict(&mut self, merge_parents: &MergeParents) -> std::io::Result<bool> {
         use State::*;
-        if let Some(commit) = parse_merge_marker(&self.line, "++<<<<<<<") {
+        if let Some(commit) = parse_merge_marker(&self.line, "++<<<<<<<").map(str::to_string) {
+            // A conflict region can be the very first thing in a hunk: the hunk header is still
+            // pending then (it is written when the first hunk line arrives).
+            if let HunkHeader(_, parsed_hunk_header, line, raw_line) = &self.state.clone() {
+                self.emit_hunk_header_line(parsed_hunk_header, line, raw_line)?;
+            }
             // The conflict region ends any subhunk in progress.
             self.painter.paint_buffered_minus_and_plus_lines();
             self.state = MergeConflict(merge_parents.clone(), Ours);
-            self.painter.merge_conflict_commit_names[Ours] = Some(commit.to_string());
+            self.painter.merge_conflict_commit_names[Ours] = Some(commit);
             // A new region has no ancestral section until its `|||||||` marker is seen.
             self.painter.merge_conflict_commit_names[Ancestral] = None;
-            true
+            Ok(true)
         } else {
-            false
+            Ok(false)
         }
     }
 
